@@ -260,6 +260,15 @@ def run(rep, facts):
                 if not (a_role[0] == 'field' and a_role[2] == 'role' and a_cur[0] == 'field' and a_cur[2] == 'stream' and ir.peel(a_cur[1])[0] == 'param'
                         and any(y[0] == 'param' for y in ir.walk(a_new))):
                     rep.violation("R18.2", "set_stream/order-test-args", "the order test compares %s" % ir.show(cmpc)[:100], b.loc())
+            if e[0] == 'call' and e[1] in ("std::cmp::Ordering::is_lt", "std::cmp::Ordering::is_ge") and e[2] and \
+                    ir.peel(e[2][0])[0] == 'call' and ir.peel(e[2][0])[1].endswith("cmp_input_streams") and dispatch.label_truth(lab) is not None:
+                # the same test through the Ordering predicates
+                less_test = dispatch.label_truth(lab) == e[1].endswith("is_lt")
+                cmpc = ir.peel(e[2][0])
+                a_role, a_new, a_cur = (ir.peel(x) for x in cmpc[2])
+                if not (a_role[0] == 'field' and a_role[2] == 'role' and a_cur[0] == 'field' and a_cur[2] == 'stream' and ir.peel(a_cur[1])[0] == 'param'
+                        and any(y[0] == 'param' for y in ir.walk(a_new))):
+                    rep.violation("R18.2", "set_stream/order-test-args", "the order test compares %s" % ir.show(cmpc)[:100], b.loc())
             if e[0] == 'discr' and ir.peel(e[1])[0] == 'call' and ir.peel(e[1])[1].endswith("cmp_input_streams") and isinstance(lab, tuple):
                 # the same test as a `match` on the ordering
                 names = {-1: "Less", 255: "Less", 0: "Equal", 1: "Greater"}
